@@ -1095,6 +1095,16 @@ fn c04_lines(input: &Input, obs: &mut Obs) -> Result<(), Fail> {
         stream.extend_from_slice(b"GET /");
         stream.extend(std::iter::repeat(b'u').take(len.saturating_sub(fixed)));
         stream.extend_from_slice(b" HTTP/1.1\r\n\r\n");
+    } else if kind == 3 || kind == 4 {
+        // a header line without a blank after the colon / with blanks on both sides of the value:
+        // the line is as long as its bytes, however it would be re-written
+        stream.extend_from_slice(if kind == 3 { b"PUT / HTTP/1.1\r\n" } else { b"GET / HTTP/1.1\r\n" });
+        let (head, tail): (&[u8], &[u8]) = if kind == 3 { (b"X-Pad:", b"") } else { (b"X-Pad:  ", b" \t") };
+        let fixed = head.len() + tail.len() + 2;
+        stream.extend_from_slice(head);
+        stream.extend(std::iter::repeat(b'p').take(len.saturating_sub(fixed)));
+        stream.extend_from_slice(tail);
+        stream.extend_from_slice(b"\r\n\r\n");
     } else {
         stream.extend_from_slice(b"GET / HTTP/1.1\r\n");
         let fixed = 7 + 2;
@@ -1110,9 +1120,11 @@ fn c04_lines(input: &Input, obs: &mut Obs) -> Result<(), Fail> {
         let fill_at = match kind {
             0 => line_start + 5,
             2 => line_start + 25 + 7,
+            3 => line_start + 16 + 6,
+            4 => line_start + 16 + 8,
             _ => line_start + 16 + 7,
         };
-        let fill_len = len - if kind == 0 { 16 } else { 9 };
+        let fill_len = len - match kind { 0 => 16, 3 => 8, 4 => 12, _ => 9 };
         let at = fill_at + if variant >= 4 { fill_len - 3 } else { fill_len / 2 };
         stream[at] = match variant {
             1 | 4 => b'\n',
@@ -1124,7 +1136,10 @@ fn c04_lines(input: &Input, obs: &mut Obs) -> Result<(), Fail> {
     let b = buf_size();
     let (reqs, end) = ref_parse(&stream, b, DEFAULT_LIMIT);
     let mut sch = sweep_mode_sched(mode);
-    let r = run_focus("C04", &F_C04, &stream, &reqs, &end, None, false, &mut sch)?;
+    // the stream is well-formed but for the length of one line: whatever is refused here, with
+    // whatever error kind, is refused for that length, and whatever is not delivered likewise
+    let focus = Focus { errors: true, delivery: true, ..F_C04 };
+    let r = run_focus("C04", &focus, &stream, &reqs, &end, None, false, &mut sch)?;
     if r.offtopic {
         obs.label("offtopic_mismatch");
         return Ok(());
@@ -1153,7 +1168,7 @@ fn c04_lines_enum(tier: Tier, shard: u64, nshards: u64, f: &mut dyn FnMut(&[u64]
         (0..=80).collect()
     };
     let mut i = 0u64;
-    for kind in 0..3u64 {
+    for kind in 0..5u64 {
         for len in lo..=hi {
             for off in &offs {
                 let modes: &[u64] = if tier == Tier::Quick { &[0] } else { &[0, 1, 4] };
